@@ -320,14 +320,11 @@ Section OneRun.
     first_nonws toks len i =
     if i <? len then
       match tk i with
-      | Some t => match p_fnw t with Some r => Some (r, p_types t) | None => first_nonws toks len (i + 1) end
+      | Some t => if p_code t then match p_fnw t with Some r => Some (r, p_types t) | None => None end else None
       | None => None
       end
     else None.
-  Proof.
-    unfold first_nonws at 1. cbn [first_nonws_aux]. destruct (i <? len) eqn:E; [|reflexivity]. b2p.
-    unfold first_nonws. replace (N.to_nat (len - i)) with (S (N.to_nat (len - (i + 1)))) by lia. reflexivity.
-  Qed.
+  Proof. reflexivity. Qed.
 
   (** pruning by a token the graph is blind to keeps exactly the options without a hint *)
   Lemma prune_aux_blind t r : okgap g t -> p_fnw t = Some r ->
